@@ -227,6 +227,12 @@ func runC09(w *World, r *Report) {
 		undecidedf("C09.lock-released: no Lock call found")
 	}
 
+	// error objects travel between runs (a node may return a memoised / single-flighted error of an inner runnable, the
+	// caller of an earlier run still holds the one it got): the framework extends a run error by building a new one
+	r.Rule("C09.errors-copied-on-extend", "wrapGraphNodeError / wrapStreamWrapperError never write through the error they are given (no in-place extension of an object other runs and callers may hold)", 2)
+	ruleNoMutateParams(w, r, "C09.errors-copied-on-extend", w.Fn("compose", "wrapGraphNodeError"), nil)
+	ruleNoMutateParams(w, r, "C09.errors-copied-on-extend", w.Fn("compose", "wrapStreamWrapperError"), nil)
+
 	r.Rule("C09.append-alias", "append on a slice held in a shared object is stored back to the same field or starts from a fresh slice", 1)
 	armedOwners := map[*types.Named]bool{}
 	for t := range compiled {
